@@ -57,6 +57,10 @@ where
                 self.memory_tracker
                     .decrement_used_memory(oldest_size.as_bytes_u64());
                 self.current_size -= oldest_size;
+            } else {
+                // Nothing left to evict here: the shared memory budget is held by other
+                // partitions (or the element alone exceeds it), so looping would never end.
+                break;
             }
         }
 
